@@ -2,7 +2,7 @@
 import random
 from fractions import Fraction
 from . import core, sketchcheck
-from .sketchgen import Builder, mapspec, STORES, rand_values
+from .sketchgen import Builder, mapspec, STORES, rand_values, spec_list
 from .core import f2h, h2f, parse_F, nextafter
 
 NAN = float("nan"); INF = float("inf")
@@ -178,7 +178,7 @@ def build_direct(rng, name):
 def run(tier, seed):
     rng = random.Random(seed)
     ok, log = core.build_vrun()
-    specs = [mapspec(rng)[0] for _ in range(10 if tier == "quick" else 40)]
+    specs = spec_list(rng, 10 if tier == "quick" else 40)
     facts = sketchcheck.learn_specs("C10", specs) if ok else {}
     builders = ([build(rng, facts, "x%d" % i) for i in range(300 if tier == "quick" else 8000)] + [build_direct(rng, "t%d" % i) for i in range(200 if tier == "quick" else 5000)]) if facts else []
     return sketchcheck.run_sketch_property(
